@@ -323,12 +323,25 @@ func (x *Session) upgrade(conn *websocket.Conn) {
 		return
 	}
 	conn.Write(ctx, websocket.MessageText, []byte("3probe"))
-	// release a pending poll
-	x.mu.Lock()
-	x.out = append(x.out, refcodec.EPacket{Type: refcodec.ENoop})
-	x.cond.Broadcast()
-	x.mu.Unlock()
+	// keep releasing pending polls until the client has switched (as the reference server does every 100 ms)
+	stopNoop := make(chan struct{})
+	go func() {
+		for {
+			x.mu.Lock()
+			if x.transport == "polling" && len(x.out) == 0 {
+				x.out = append(x.out, refcodec.EPacket{Type: refcodec.ENoop})
+				x.cond.Broadcast()
+			}
+			x.mu.Unlock()
+			select {
+			case <-stopNoop:
+				return
+			case <-time.After(50 * time.Millisecond):
+			}
+		}
+	}()
 	_, data, err = conn.Read(ctx)
+	close(stopNoop)
 	if err != nil || string(data) != "5" {
 		conn.CloseNow()
 		return
